@@ -176,6 +176,12 @@ class DiffRunner:
         if live != 1 + nfn + cached:
             self.viol("context-conservation", "%s: %d live contexts after the run (%s), expected 1 + %d functions + %d cached" % (label, live, oc[0], nfn, cached), ops, text); return
         bump(self.res, "context_conservation_checks")
+        if oc[0] == "returned" and it.ret_forvars:
+            for v, val in it.ret_forvars.items():
+                sy = d["syms"].get(v.upper())
+                if sy is not None and isinstance(val, int) and sy["value"] != "i:%d" % val:
+                    self.viol("return-in-loop|control-variable", "%s: `return` was executed inside `for %s` at %s = %d; after the program returned the variable is %s" % (label, v, v, val, sy["value"][:40]), ops, text); return
+            bump(self.res, "returns_inside_for_loops_checked")
         envbad = [x for x in model_env_check(it, d) if x.split(":")[0].upper() in GLOBALS]
         if envbad:
             self.viol("final-variables", "%s: %s" % (label, "; ".join(envbad[:3])), ops, text); return
